@@ -139,6 +139,8 @@ def jstep (j : J) (ws : List String) : J × String :=
     match fnOf f, amt.toInt? with
     | some fn, some n =>
       if obs = "err" then ({ j with calls := j.calls + 1 }, "pass")
+      -- an operation that carries a negative amount must fail, whatever it would do with the amount
+      else if obs.startsWith "ok" ∧ n < 0 then (j, s!"violation negative_amount_accepted {f} {n}")
       else if obs.startsWith "ok" then
         ({ j with calls := j.calls + 1, oks := j.oks + 1,
                   pending := j.pending ++ [(tokOf (shape fn).tok (dec tok), delta (shape fn).prim n)] }, "pass")
@@ -148,6 +150,7 @@ def jstep (j : J) (ws : List String) : J × String :=
     match parseAssets assets with
     | some l =>
       if obs = "err" then ({ j with calls := j.calls + 1 }, "pass")
+      else if obs.startsWith "ok" ∧ l.any (fun x => x.2 < 0) then (j, s!"violation negative_amount_accepted tait {assets}")
       else if obs.startsWith "ok" then
         ({ j with calls := j.calls + 1, oks := j.oks + 1, pending := j.pending ++ l.map (fun x => (x.1, (0 : Int))) }, "pass")
       else (j, s!"violation reply_shape {obs}")
@@ -156,6 +159,7 @@ def jstep (j : J) (ws : List String) : J × String :=
     match fnOf f, parseAssets assets with
     | some fn, some l =>
       if obs = "err" then ({ j with calls := j.calls + 1 }, "pass")
+      else if obs.startsWith "ok" ∧ l.any (fun x => x.2 < 0) then (j, s!"violation negative_amount_accepted {f} {assets}")
       else if obs.startsWith "ok" then
         ({ j with calls := j.calls + 1, oks := j.oks + 1,
                   pending := j.pending ++ l.map (fun x => (x.1, delta (shape fn).prim x.2)) }, "pass")
